@@ -290,6 +290,13 @@ def run_libfuzzer_stage(prop, stage, tier, env, work, merged, known_sigs, handle
                     sig = line.split()[1].rstrip(":")
                     what = line[len("VERIF-FUZZ-FAILURE "):]
             rstage = dict(stage, driver=rdrv)
+            try:  # keep the tail of the fuzzer's own output for diagnosis (crashes of the harness itself do not reproduce from the input alone)
+                ddir = os.path.join(VERIF, "replays", prop)
+                os.makedirs(ddir, exist_ok=True)
+                with open(os.path.join(ddir, "fuzz-%s.txt" % base[:60]), "w") as fh:
+                    fh.write(out[-12000:])
+            except Exception:
+                pass
             if sig in known_sigs:
                 merged["excluded"].setdefault(sig, {"count": 0, "example": text[:300]})["count"] += 1
             else:
